@@ -265,7 +265,12 @@ func randNumLit(rng *rand.Rand) string {
 		if rng.IntN(2) == 0 {
 			s += "." + strconv.Itoa(rng.IntN(1000))
 		}
-		e := []string{"e", "E"}[rng.IntN(2)] + []string{"", "+", "-"}[rng.IntN(3)] + strconv.Itoa(rng.IntN(40))
+		ex := rng.IntN(40)
+		if rng.IntN(3) == 0 {
+			// three-digit exponents, incl. those with zeros in any position
+			ex = []int{100, 101, 109, 110, 200, 205, 210, 290, 300, 303}[rng.IntN(10)] + rng.IntN(5)
+		}
+		e := []string{"e", "E"}[rng.IntN(2)] + []string{"", "+", "-"}[rng.IntN(3)] + strconv.Itoa(ex)
 		if rng.IntN(2) == 0 {
 			s = "-" + s
 		}
